@@ -17,16 +17,6 @@ impl vstd::std_specs::convert::FromSpecImpl<Bit> for Direction {
     closed spec fn from_spec(bit: Bit) -> Self { match bit { Bit::Zero => Direction::Left, Bit::One => Direction::Right } }
 }
 
-// the length of the longest common prefix, as the property states it
-pub open spec fn is_lcplen(a: NodeLabel, b: NodeLabel, k: int) -> bool {
-    0 <= k <= a.label_len && k <= b.label_len && agree(a, b, k)
-    && (k < a.label_len && k < b.label_len ==> bit(a, k) != bit(b, k))
-}
-// r is the prefix of l of length n (meaning of get_prefix for n <= len)
-pub open spec fn is_prefix_n(r: NodeLabel, l: NodeLabel, n: int) -> bool {
-    if n >= 256 { r == l } else { r.label_len == n && canon(r) && agree(r, l, n) }
-}
-
 // ---- lemmas over the contracts (C17: "behave exactly as on the corresponding bit strings")
 // pfx is reflexive and transitive; antisymmetric on canonical labels
 // alarm: C17
